@@ -78,8 +78,10 @@ class NMEA2000Message:
             if f.physical_quantities == PhysicalQuantities.ANGLE:
                 requested_unit = preferred_units.get(PhysicalQuantities.ANGLE, None)
                 if requested_unit == "deg":
+                    # a few proprietary fields (Airmar/Furuno offsets) are already in degrees in the database
+                    if f.unit_of_measurement != "deg":
+                        f.value = radians_to_degrees(f.value)
                     f.unit_of_measurement = "Deg"
-                    f.value = radians_to_degrees(f.value)
             if f.physical_quantities == PhysicalQuantities.SPEED:
                 requested_unit = preferred_units.get(PhysicalQuantities.SPEED, None)
                 if requested_unit == "kts":
